@@ -194,6 +194,7 @@ func mkSelDoc() *selDoc {
 		"m":    d.m,
 		"k.k":  Map{"c": d.y},
 		"num":  "12.5",
+		"nest": Map{"b": []any{[]any{d.x, d.y}, []any{d.x}}, "w": []any{Map{"v": []any{[]any{d.y}, []any{d.x, d.y}}}}},
 		"ab":   "without-space",
 		"a b":  "with-space",
 		"o":    Map{"p": Map{"q": d.x, "r": Map{"z": d.s}}, "w": d.y},
@@ -306,6 +307,11 @@ var selCases = []selCase{
 	{"o::p::q", func(d *selDoc) (any, bool) { return d.x, false }},
 	{"p", func(d *selDoc) (any, bool) { return nil, false }},
 	{"q", func(d *selDoc) (any, bool) { return nil, false }},
+	// three `::` segments with a function in the middle and in the last one
+	{"nest::mix=>b::[0]", func(d *selDoc) (any, bool) { return d.x, false }},
+	{"nest::w[0]::mix=>v", func(d *selDoc) (any, bool) { return []any{d.y, d.x, d.y}, false }},
+	{"nest::b::[1]::[0]", func(d *selDoc) (any, bool) { return d.x, false }},
+	{"mix=>nest.b::[2]", func(d *selDoc) (any, bool) { return d.x, false }},
 	// selector texts that differ only in spaces
 	{"'ab'", func(d *selDoc) (any, bool) { return "without-space", false }},
 	{"'a b'", func(d *selDoc) (any, bool) { return "with-space", false }},
